@@ -16,6 +16,7 @@ import PicoVerif.Model.Build
 import PicoVerif.Model.Include
 import PicoVerif.Model.Require
 import PicoVerif.Model.ReqWalk
+import PicoVerif.Model.ToFile
 /-! Line-protocol driver over the executable models (compiled; must not import Mathlib).
 One request per line: `op arg arg ...`; one response line per request.
 Byte strings travel as lower-case hex (`-` = empty). -/
@@ -517,6 +518,31 @@ def handle (st : St) (line : String) : St × String :=
     match main.toNat?, parseHex lp, files ws with
     | some m, some lp, some fs => showEx (ReqWalk.buildLua fs m (Inc.bytesToPath lp))
     | _, _, _ => "bad-op"
+  -- pgf OW CARTS STORE : CARTS = name,png,loads,(r:HEX|x) joined by ';' ; STORE = path=HEX joined by ';' ('.' = empty)
+  | ["pgf", ow, carts, store] =>
+    let parseCart (w : String) : Option ToFile.CartArg :=
+      match w.splitOn "," with
+      | [n, png, loads, e] =>
+        let enc : Option ToFile.Enc :=
+          if e == "x" then some (.raises [])
+          else match e.splitOn ":" with
+            | ["r", h] => (parseHex h).map fun b => .returns [b]
+            | _ => none
+        enc.map fun en => { name := n, png := png == "1", loads := loads == "1", enc := en }
+      | _ => none
+    let parseEntry (w : String) : Option (String × Bytes) :=
+      match w.splitOn "=" with
+      | [pth, h] => (parseHex h).map fun b => (pth, b)
+      | _ => none
+    match (if carts == "." then some [] else (carts.splitOn ";").mapM parseCart),
+          (if store == "." then some [] else (store.splitOn ";").mapM parseEntry) with
+    | some cs, some st =>
+      let (st', oc) := ToFile.processGameFiles (ow == "1") cs st false
+      let names := (st'.map (·.1)).eraseDups
+      let sorted := names.toArray.qsort (· < ·) |>.toList
+      let oc' := match oc with | .raised => "raised" | .done true => "rc1" | .done false => "rc0"
+      s!"ok {oc'} " ++ (if sorted.isEmpty then "." else ";".intercalate (sorted.map fun n => s!"{n}={showHex ((ToFile.Store.get st' n).getD [])}"))
+    | _, _ => "bad-op"
   | ["stripdec", np, m] =>
     match (np.splitOn ":").mapM parseHex, (if m == "n" then some none else (parseHex m).map some) with
     | some np, some m => if Req.stripsStat np m then "ok 1" else "ok 0"
